@@ -4,7 +4,7 @@ Exploration is by re-execution: a harness is an ordinary Python function h(ex); 
 decision (branch, concretisation of an address/length) consults a decision prefix; at the first new
 decision the solver decides which alternatives are feasible, one is followed and the others are
 queued.  Heaps are therefore concrete per path; data stay symbolic (z3 terms)."""
-import bisect, struct, sys, time
+import bisect, os, struct, sys, time
 from fractions import Fraction
 import z3
 import ir
@@ -124,6 +124,7 @@ class Exec:
         self.findings = []
         self.on_fdiv0 = "finding"  # or "infeasible"
         self.concrete = None       # dict name -> value: concrete re-run under a model (replay)
+        self.cut = set()           # (function, block) pairs at which a path is abandoned (stated as outside the claim)
         self.s = z3.Solver() if solver == "inc" else None
         self.inc_timeout_ms = min(timeout_ms, 8000)     # incremental attempt; a fresh solver gets the full limit
         if self.s is not None:
@@ -142,6 +143,7 @@ class Exec:
         self.names = {}
         self.depth = 0
         self.trace = []          # harness-level actions (for native replay)
+        self.picks = {}
         self.path_tags = []
         self.heap_live = {}
         if self.s is not None:
@@ -220,6 +222,9 @@ class Exec:
             s2.add(*self.pc)
             if extra is not None:
                 s2.add(extra)
+            if os.environ.get("VERIF_DUMP"):
+                with open(os.path.join(os.environ["VERIF_DUMP"], "q%d_%d.smt2" % (os.getpid(), self.stats["queries"])), "w") as fh:
+                    fh.write(s2.to_smt2())
             r = s2.check()
             self.stats["retries"] = self.stats.get("retries", 0) + 1
             self.stats["solver_s"] += time.time() - t1
@@ -229,7 +234,10 @@ class Exec:
         return r == z3.sat
 
     def _fresh_solver(self):
-        s = z3.Solver()
+        if self.solver_mode == "nra":
+            s = z3.Then("simplify", "purify-arith", "propagate-values", "solve-eqs", "qfnra-nlsat").solver()
+        else:
+            s = z3.Solver()
         s.set("timeout", self.timeout_ms)
         return s
 
@@ -242,13 +250,21 @@ class Exec:
                 return self.s.model()
             if r == z3.unsat:
                 return None
-        s = self._fresh_solver()
-        s.add(*self.pc)
-        if extra is not None:
-            s.add(extra)
-        if s.check() != z3.sat:
-            return None
-        return s.model()
+        for attempt in (0, 1):
+            s = self._fresh_solver() if attempt == 0 else z3.Solver()
+            s.set("timeout", self.timeout_ms)
+            s.add(*self.pc)
+            if extra is not None:
+                s.add(extra)
+            try:
+                r = s.check()
+            except z3.Z3Exception:
+                r = z3.unknown
+            if r == z3.sat:
+                return s.model()
+            if r == z3.unsat:
+                return None
+        return None
 
     def add(self, c):
         if self.concrete is not None or isinstance(c, (bool, int)):
@@ -261,7 +277,7 @@ class Exec:
         return self._check(c)
 
     def model_dict(self, m):
-        d = {}
+        d = dict(self.picks)
         if m is None:
             return d
         for nm, v in self.names.items():
@@ -359,19 +375,32 @@ class Exec:
                 raise Abort()
 
     def pick(self, options, tag="pick"):
-        """Harness-level nondeterministic choice over a finite list (a symbolic index, so that the
-        choice is part of the model and replays concretely)."""
+        """Harness-level nondeterministic choice over a finite list: a decision like a branch; the chosen
+        index is recorded in the model so that the choice replays concretely."""
         n = len(options)
+        self.sym_counter += 1
+        nm = "%s!%d" % (tag, self.sym_counter)
         if n == 1:
             return options[0]
-        v = self.fresh_bv(tag, 8)
-        if self.concrete is None:
-            self.add(z3.ULT(v, n))
-        return options[self.concretize(v, limit=n + 1) % n]
+        if self.concrete is not None:
+            k = int(self.concrete.get(nm, 0)) % n
+        elif self.di < len(self.prefix):
+            k = self.prefix[self.di][1]
+            self.di += 1
+            self.trail.append(("pick", k))
+        else:
+            k = 0
+            for q in range(n - 1, 0, -1):
+                self.work.append(self.trail + [("pick", q)])
+            self.stats["forks"] += n - 1
+            self.di += 1
+            self.trail.append(("pick", 0))
+        self.picks[nm] = k
+        return options[k]
 
     # ------------------------------------------------------------ findings / obligations
     def finding(self, kind, label, detail="", model=None, ctx=None):
-        f = Finding(kind, label, detail, self.model_dict(model) if model is not None else {}, list(self.trail), ctx)
+        f = Finding(kind, label, detail, self.model_dict(model), list(self.trail), ctx)
         f.trace = list(self.trace)
         f.tags = list(self.path_tags)
         self.findings.append(f)
@@ -1074,6 +1103,9 @@ class Exec:
         covered = self.covered
         try:
             while True:
+                if self.cut and (fname, cur) in self.cut:
+                    self.stats["cut"] = self.stats.get("cut", 0) + 1
+                    raise Infeasible()
                 covered.add((fname, cur))
                 n = visits.get(cur, 0) + 1
                 visits[cur] = n
